@@ -552,7 +552,12 @@ def shipped_edit_phase(tier, base_seed):
 
 def extra_phase(tier, base_seed, prop="C17"):
     if prop == "C20":
-        return shipped_edit_phase(tier, base_seed)
+        from .. import boundary
+        out = shipped_edit_phase(tier, base_seed)
+        b = boundary.c20_phase(tier, base_seed)
+        out["violations"].extend(b.pop("violations", []))
+        out.update(b)
+        return out
     if prop != "C17":
         return {}
     import shutil
